@@ -73,9 +73,9 @@ CLAIMED = {
   "Seeded search over configurations of the six optional driver libraries and over select/get/count/open calls. For constructive patterns (literals with case flips, prefixes/suffixes with .*, alternations, bracket sets, quantifiers) the result must be the first enumerated device of the kind that an independent whole-name, case-insensitive matcher accepts; arbitrary patterns up to 255 bytes, unknown kinds, out-of-range indices, corrupted identifiers and absent libraries must yield an error status. The pattern clause is a pure function of its input (DESIGN §5): the simulation proper contributes the loader/library dimension.",
   "Bracket sets without ranges; selections are only compared with the matcher when every enumerated entry could be described."),
  "C17": ("exploration", "DESIGN.md §4 C17",
-  "seeded set/start/get_frame/stop histories on the three real simulated cameras, whose real streamer thread runs on the simulation kernel, under ASan with exact-size caller buffers; reported shape, strides and read-back values compared with a reference model",
+  "seeded set/start/get_frame/stop histories on the three real simulated cameras, whose real streamer thread runs on the simulation kernel, under ASan with exact-size caller buffers and a guard allocator behind the camera's own malloc family (every block between inaccessible guards); both bin2 variants (avx2, and plain in a build without -mavx2); reported shape, strides and read-back values compared with a reference model",
   "Seeded search over camera kind, binning 1/2/4/8 (and rejected values), sample types, shapes incl. the clamping boundaries 8192/binning, offsets, exposures and re-configuration/restart histories, under seeded schedules of the streamer thread; any ASan report in render, binning, copy-out or reallocation is a violation.",
-  "set is issued only while stopped. The bin2 variant is the one /repo's build selects (-mavx2). Pixel values are not judged (the property is about memory safety and shape)."),
+  "set is issued only while stopped. Pixel values are not judged (the property is about memory safety and shape)."),
  "C18": ("exploration", "DESIGN.md §4 C18",
   "deterministic simulation: getter, trigger and stopper threads against the real streamer thread under seeded schedules, stalls and spurious wake-ups, across restarts",
   "Seeded search over schedules and over the timing of frame, trigger and stop calls. Oracles: strictly increasing hardware ids within a run, the count restarts (bounded by elapsed virtual time over half an exposure), with trigger mode no frame before the first trigger of that run and never more frames than triggers invoked, stop returns and releases a pending frame call within a step budget.",
@@ -117,7 +117,7 @@ def main():
         "setup_cmd": "./check build",
         "hooks": {
             "guard": "ACQUIRE_COMMON_VERIF",
-            "enable": "no source hooks are needed: the checks compile /repo's working tree unmodified and interpose below platform.c at link time (objcopy --redefine-syms, see sim/seams/*.txt); the fine flavour additionally compiles the repo's C files with -fsanitize=thread against a private __tsan runtime (sim/tsanrt.cpp); the guard name is reserved and unused",
+            "enable": "no source hooks are needed: the checks compile /repo's working tree unmodified and interpose below platform.c at link time (objcopy --redefine-syms, see sim/seams/*.txt); the fine flavour additionally compiles the repo's C files with -fsanitize=thread against a private __tsan runtime (sim/tsanrt.cpp); the plain flavour drops -mavx2; the guard name is reserved and unused",
             "baseline_off_cmd": "cmake --build /repo/_build && ctest --test-dir /repo/_build -j8 --timeout 900",
             "source_commits": [],
             "add_only": True,
